@@ -75,7 +75,7 @@ def cases(tier, seed):
         if c.nM >= 2:
             v = gen.Ctx(c.rows, c.nM, c.tag + ':odd-labels')
             v.objects = [f'o{g}' for g in range(c.nG)]
-            names = ['0', '', ' ', 'False', '1', 'None', '00', '-', 'p8']
+            names = ['0', '', ' ', 'False', '1', 'None', '00', '-', 'p8', '100%', '%s', '%d%%'][(i % 3):] + ['0', '', ' ']
             k = i % c.nM
             v.properties = [names[(j + i) % len(names)] for j in range(c.nM)]
             if len(set(v.properties)) == c.nM:
